@@ -52,6 +52,10 @@ struct wrec {
 	int runs;         /* callback invocations in the current iteration */
 };
 static struct wrec rec[NREC];
+static int n_actions;
+#ifndef C45_MAXACT
+#define C45_MAXACT 2
+#endif
 static int nrec, nadded; /* nrec: initial watchers only */
 static struct event_base *base;
 static struct evwatch c45_dummy;
@@ -159,7 +163,13 @@ static void act_free_other(int self)
 }
 static void do_action(int self, int allow_self, int allow_other, int allow_add)
 {
-	int a = (int)vp_range(0, 3);
+	int a;
+	/* action budget: at most C45_MAXACT callbacks of a run draw a (solver-chosen) action;
+	 * which ones is the solver's choice too */
+	if (!(allow_self || allow_other || allow_add)) return;
+	if (n_actions >= C45_MAXACT || !vp_bool()) return;
+	n_actions++;
+	a = (int)vp_range(1, 3);
 	if (a == 1 && allow_self && self >= 0) { int j; for (j = 0; j < NREC; j++) if (j == self) act_free(j); }
 	else if (a == 2 && allow_other) act_free_other(self);
 	else if (a == 3 && allow_add) act_add();
